@@ -1037,7 +1037,7 @@ theorem saveRejFiles_outOnly (rejs : List (Bytes × Bytes)) : ∀ (w w' : World)
   | cons x rest ih =>
     intro w w' hr h
     obtain ⟨name, content⟩ := x
-    unfold saveRejFiles at h
+    rw [saveRejFiles_cons] at h
     split at h
     · cases h
     · rename_i k hk
@@ -1063,6 +1063,13 @@ theorem saveRejFiles_outOnly (rejs : List (Bytes × Bytes)) : ∀ (w w' : World)
             exact ((a0.trans (op_ok_outOnly hop hout)).trans (op_ok_outOnly hop2 hout)).trans (ih w2 w' hrest h)
           · cases h
           · cases h
+      split at h
+      · -- bypassed (`ENOTDIR`): nothing is touched
+        split at h
+        · cases h
+        · split at h
+          · cases h
+          · exact ih ((w.logged (.removeFile k)).logged (.createFile k)) w' hrest h
       split at h
       · cases h
       · rename_i w0 hop
